@@ -334,6 +334,15 @@ func (p *Program) verifyLemma(c *Contract) *FuncResult {
 		ex.emit("(assert %s)", t.S)
 	}
 	ex.obls = append(ex.obls, &Obl{Name: res.Name + "#cover:entry", Kind: "cover", Goal: tTrue, Prefix: len(ex.lines), Cover: true, Props: c.Props})
+	for _, h := range c.Hints {
+		t, err := env.tr(h.E)
+		if err != nil {
+			ex.unsup(token.NoPos, "lemma %s hint: %v", c.Short, err)
+			continue
+		}
+		hv := ex.fresh("hint", t.Sort)
+		ex.emit("(assert (= %s %s)) ; hint (mentions a term, adds no fact)", hv.S, t.S)
+	}
 	for _, e := range c.Ensures {
 		t, err := env.tr(e.E)
 		if err != nil || t.Sort != "Bool" {
